@@ -32,7 +32,16 @@ def main():
         extra = ('\nThis is round %s: other people have already tried the most obvious change for this property. Prefer a different code site or '
                  'mechanism than the first one that comes to mind — look through ALL the anchors and the code around them before choosing.\n' % rnd)
         ms = d['anchors'].get('mechanism', [])
-        if rnd.isdigit() and int(rnd) >= 13:
+        if rnd.isdigit() and int(rnd) >= 14:
+            extra += ('Earlier rounds covered single-site slips, kept state, extreme sizes, unusual argument forms, cooperating edits and '
+                      'well-meant fast paths / simplifications. Assume the property is ALREADY watched by a randomised differential checker '
+                      'that feeds generated inputs through the code and compares with a reference. Read the "Quantified over" sentence and '
+                      'choose a change whose failing inputs lie inside that domain but are ones a random generator would produce with '
+                      'negligible probability: a precise coincidence of two values (a length equal to a particular multiple, two fields '
+                      'equal to each other, a byte sequence that happens to spell something), a particular ORDER of otherwise ordinary '
+                      'items, an item repeated exactly N times, a boundary reached only through a combination of options, or an input '
+                      'that is the OUTPUT of another picotool command. The more ordinary each ingredient looks, the better.\n')
+        elif rnd.isdigit() and int(rnd) >= 13:
             extra += ('Earlier rounds covered single-site slips, state kept between calls, extreme sizes, unusual argument forms and pairs of '
                       'cooperating edits. This time write the change the way a well-meaning contributor would: a performance FAST PATH that '
                       'skips work when a cheap test says the result cannot change (and the test is slightly too generous), a SIMPLIFICATION '
